@@ -1,5 +1,5 @@
 """C13 - key store durability and crash atomicity.  Spec: KeyStore.tla; binding A (edge replay) + E (crash injection)."""
-import json, os, random, shutil, sqlite3, tempfile
+import zlib, json, os, random, shutil, sqlite3, tempfile
 from harness import core
 
 
@@ -139,18 +139,28 @@ def sender_name(k):
     return SenderKeyName("4915770000001-14000000%02d@g.us" % KEYID[k], AxolotlAddress(str(RECIP[k]), 0))
 
 
-def apply_op(h, store, o):
+INNER = {"sessions": "sessionStore", "identities": "identityKeyStore", "prekeys": "preKeyStore", "signed": "signedPreKeyStore",
+         "senderkeys": "senderKeyStore"}
+
+
+def surf(store, table, inner):
+    """The object an operation on `table` is called on: the store facade, or - as GroupCipher, the prekey bookkeeping and python-axolotl's
+    own builders do - the table's own store object that the facade exposes."""
+    return getattr(store, INNER[table]) if inner else store
+
+
+def apply_op(h, store, o, inner=False):
     op, k, v = o["op"], o["k"], o["v"]
     if op == "storeSession":
-        store.storeSession(RECIP[k], 1, h.value("sessions", v))
+        surf(store, "sessions", inner).storeSession(RECIP[k], 1, h.value("sessions", v))
     elif op == "saveIdentity":
-        store.saveIdentity(RECIP[k], h.value("identities", v))
+        surf(store, "identities", inner).saveIdentity(RECIP[k], h.value("identities", v))
     elif op == "deleteSession":
-        store.deleteSession(RECIP[k], 1)
+        surf(store, "sessions", inner).deleteSession(RECIP[k], 1)
     elif op == "storePreKey":
-        store.storePreKey(KEYID[k], h.value("prekeys", v, k))
+        surf(store, "prekeys", inner).storePreKey(KEYID[k], h.value("prekeys", v, k))
     elif op == "removePreKey":
-        store.removePreKey(KEYID[k])
+        surf(store, "prekeys", inner).removePreKey(KEYID[k])
     elif op == "setAsSent":
         store.preKeyStore.setAsSent([KEYID[k]])
     elif op == "setAllAsSent":
@@ -159,11 +169,11 @@ def apply_op(h, store, o):
         ks = sorted(KEYS)
         store.preKeyStore.setAsSent([KEYID[ks[0]], KEYID[ks[-1]]])
     elif op == "storeSignedPreKey":
-        store.storeSignedPreKey(KEYID[k], h.value("signed", v, k))
+        surf(store, "signed", inner).storeSignedPreKey(KEYID[k], h.value("signed", v, k))
     elif op == "removeSignedPreKey":
-        store.removeSignedPreKey(KEYID[k])
+        surf(store, "signed", inner).removeSignedPreKey(KEYID[k])
     elif op == "storeSenderKey":
-        store.storeSenderKey(sender_name(k), h.value("senderkeys", v))
+        surf(store, "senderkeys", inner).storeSenderKey(sender_name(k), h.value("senderkeys", v))
     else:
         raise core.MachineryError("unknown op %s" % op)
 
@@ -171,9 +181,11 @@ def apply_op(h, store, o):
 KEYS = ["k1", "k2"]
 
 
-def project(h, path):
-    """Read everything back through a FRESH store on `path`; map concrete records to model values."""
-    st = h.open(path)
+def project(h, path, live=None, inner=False):
+    """Read everything back through a FRESH store on `path` - or, with `live`, through the store object the history was applied to, by
+    its facade or (inner) by the per-table stores it exposes; map concrete records to model values."""
+    st = live if live is not None else h.open(path)
+    S = lambda t: surf(st, t, inner)
     out = {t: {} for t in ("identities", "sessions", "prekeys", "signed", "senderkeys")}
     problems = []
 
@@ -187,8 +199,8 @@ def project(h, path):
     unsent = set(r.getId() for r in st.preKeyStore.loadUnsentPendingPreKeys())
     for k in KEYS:
         # sessions
-        if st.containsSession(RECIP[k], 1):
-            out["sessions"][k] = [ident("sessions", st.loadSession(RECIP[k], 1).serialize())]
+        if S("sessions").containsSession(RECIP[k], 1):
+            out["sessions"][k] = [ident("sessions", S("sessions").loadSession(RECIP[k], 1).serialize())]
         else:
             out["sessions"][k] = []
         # identities (raw read of the pinned key + the API's verdicts)
@@ -201,21 +213,22 @@ def project(h, path):
             out["identities"][k] = [v]
             for (t, vv, _), val in h.values.items():
                 if t == "identities":
-                    if st.isTrustedIdentity(RECIP[k], val) != (vv == v):
+                    if S("identities").isTrustedIdentity(RECIP[k], val) != (vv == v):
                         problems.append("isTrustedIdentity(%s, %s) wrong while %s is pinned" % (k, vv, v))
-        if st.containsPreKey(KEYID[k]):
-            out["prekeys"][k] = [ident("prekeys", st.loadPreKey(KEYID[k]).serialize(), k), KEYID[k] not in unsent]
+        if S("prekeys").containsPreKey(KEYID[k]):
+            out["prekeys"][k] = [ident("prekeys", S("prekeys").loadPreKey(KEYID[k]).serialize(), k), KEYID[k] not in unsent]
         else:
             out["prekeys"][k] = []
-        if st.containsSignedPreKey(KEYID[k]):
-            out["signed"][k] = [ident("signed", st.loadSignedPreKey(KEYID[k]).serialize(), k)]
+        if S("signed").containsSignedPreKey(KEYID[k]):
+            out["signed"][k] = [ident("signed", S("signed").loadSignedPreKey(KEYID[k]).serialize(), k)]
         else:
             out["signed"][k] = []
-        r = st.loadSenderKey(sender_name(k))
+        r = S("senderkeys").loadSenderKey(sender_name(k))
         out["senderkeys"][k] = [] if r.isEmpty() else [ident("senderkeys", r.serialize())]
-    ikp = st.getIdentityKeyPair()
-    local = (bytes(ikp.getPublicKey().serialize()), bytes(ikp.getPrivateKey().serialize()), st.getLocalRegistrationId())
-    st.identityKeyStore.dbConn.close()
+    ikp = S("identities").getIdentityKeyPair()
+    local = (bytes(ikp.getPublicKey().serialize()), bytes(ikp.getPrivateKey().serialize()), S("identities").getLocalRegistrationId())
+    if live is None:
+        st.identityKeyStore.dbConn.close()
     return out, local, problems
 
 
@@ -318,8 +331,18 @@ def replay_path(run, h, g, path, full_crash):
         # now really perform the operation
         h.ctl["count"] = 0
         h.ctl["kinds"] = []
-        apply_op(h, store, o)
+        # the surface the live operation goes through alternates pseudo-randomly: yowsup itself mixes them (GroupCipher is handed the
+        # sender key table's store, GroupSessionBuilder and SessionCipher the facade)
+        inner = (zlib.crc32(json.dumps(trail, sort_keys=True).encode()) >> 3) % 3 == 0
+        apply_op(h, store, o, inner)
         if complete:
+            for via in (False, True):                 # read-your-writes in the live process, through either surface
+                got, local, problems = project(h, db, live=store, inner=via)
+                if got != after or local != local0 or problems:
+                    run.violation("live-read:%s" % o["op"], "after %s (%s; history %s) the store object itself reads %s through its %s, expected %s %s" % (
+                        o, "table store" if inner else "facade", trail, got, "table stores" if via else "facade", after, problems), {"trail": trail})
+                    ok = False
+                    break
             got, local, problems = project(h, db)     # durability: fresh store sees the committed result
             if got != after or local != local0 or problems:
                 run.violation("durable:%s" % o["op"], "after %s (history %s) a fresh store reads %s, expected %s %s" % (o, trail, got, after, problems),
@@ -407,6 +430,44 @@ def own_identity_first_open(r, work):
                     who, pub.hex()[:12], reg, now[0].hex()[:12], now[1], " (two openers initialising concurrently)" if nested else ""), {"nested": nested, "handed": [h[0] for h in handed]})
 
 
+def profiles_of_one_number(r):
+    """factory.py: the store a profile's manager uses is that profile's own axolotl.db.  Two profiles configured for one number (one left
+    from an earlier installation next to a new one; an application's "work" and "test" profile) each keep their own identity, and what
+    is stored through a profile's manager is what a later process opening that profile reads."""
+    from harness import e2ekit
+    from yowsup.axolotl.store.sqlite.liteaxolotlstore import LiteAxolotlStore
+    from yowsup.common.tools import StorageTools
+    from yowsup.axolotl.factory import AxolotlManagerFactory
+    roots = e2ekit.Roots()
+    try:
+        for n, names in enumerate((("4915770009901", "second-install"), ("old-install", "new-install", "4915770009902"))):
+            phone = "491577000990%d" % (n + 1)
+            r.case(("profiles-of-one-number", names))
+            r.cov["traces_validated_against_impl"] += 1
+            seen = {}
+            for name in names:
+                prof = e2ekit.make_profile(phone, name)
+                mgr = prof.axolotl_manager
+                ident = bytes(mgr.identity.getPublicKey().serialize())
+                reg = mgr.registration_id
+                mgr.generate_signed_prekey()
+                seen[name] = (ident, reg)
+            for name in names:
+                dbpath = StorageTools.constructPath(name, AxolotlManagerFactory.DB)
+                if not os.path.exists(dbpath):
+                    r.violation("factory:profile-without-store", "profile %r for number %s was used, yet has no %s afterwards (profiles used: %s)" % (
+                        name, phone, AxolotlManagerFactory.DB, list(names)), {"names": list(names)})
+                    continue
+                st = LiteAxolotlStore(dbpath)
+                now = (bytes(st.getIdentityKeyPair().getPublicKey().serialize()), st.getLocalRegistrationId())
+                st.identityKeyStore.dbConn.close()
+                if now != seen[name]:
+                    r.violation("factory:other-profiles-store", "profile %r for number %s worked with identity %s.., a later open of that profile's store reads %s.. (profiles used: %s)" % (
+                        name, phone, seen[name][0].hex()[:12], now[0].hex()[:12], list(names)), {"names": list(names)})
+    finally:
+        roots.close()
+
+
 def run():
     r = core.Run("C13", "model_checking")
     thorough = r.tier == "thorough"
@@ -473,6 +534,7 @@ def run():
         KEYS = ["k1", "k2"]
         second_device(r, h)
         own_identity_first_open(r, work)
+        profiles_of_one_number(r)
     finally:
         shutil.rmtree(work, ignore_errors=True)
     r.assumptions += core.ENV_ASSUMPTIONS[:1] + [
